@@ -23,6 +23,11 @@ Inductive e2e_op :=
 Section E.
 Variable L : Z.
 
+Section B.
+(* back-pressure: while the services of the workers answer Pending to their readiness checks, no worker picks anything up from its
+   queue (ServerWorker::poll stays in state Unavailable); the accept loop goes on dispatching until the counters say 'full' *)
+Variable blk : bool.
+
 (* every generation picks up everything that is queued for it (picking does not touch other queues) *)
 Definition picks_ops (st : state) : list op :=
   flat_map (fun g => match nth_error (ws st) g with
@@ -30,7 +35,7 @@ Definition picks_ops (st : state) : list op :=
                      | None => [] end) (seq 0 (length (ws st))).
 
 Definition round_ops (st : state) : list op :=
-  let st1 := step L st (Turn []) in Turn [] :: picks_ops st1.
+  let st1 := step L st (Turn []) in Turn [] :: (if blk then [] else picks_ops st1).
 
 Fixpoint settle_ops (k : nat) (st : state) : list op :=
   match k with
@@ -129,17 +134,19 @@ Definition e2e_ops_ab (ab : list N) (st : state) (next : N) (o : e2e_op) : list 
 Definition e2e_step_ab (ab : list N) (st : state) (next : N) (o : e2e_op) : state * N :=
   let '(os, n') := e2e_ops_ab ab st next o in (run L st os, n').
 
-(* a scenario: each operation together with the abortive connections known when it is issued *)
-Fixpoint e2e_script_ab (st : state) (next : N) (ops : list (list N * e2e_op)) : list op :=
+End B.
+
+(* a scenario: each operation together with the back-pressure flag in force and the abortive connections known when it is issued *)
+Fixpoint e2e_script_ab (st : state) (next : N) (ops : list (bool * list N * e2e_op)) : list op :=
   match ops with
   | [] => []
-  | (ab, o) :: t => let '(os, n') := e2e_ops_ab ab st next o in os ++ e2e_script_ab (run L st os) n' t
+  | (blk, ab, o) :: t => let '(os, n') := e2e_ops_ab blk ab st next o in os ++ e2e_script_ab (run L st os) n' t
   end.
 
 Fixpoint e2e_script (st : state) (next : N) (ops : list e2e_op) : list op :=
   match ops with
   | [] => []
-  | o :: t => let '(os, n') := e2e_ops st next o in os ++ e2e_script (run L st os) n' t
+  | o :: t => let '(os, n') := e2e_ops false st next o in os ++ e2e_script (run L st os) n' t
   end.
 
 End E.
